@@ -44,6 +44,8 @@ unsigned long __CPROVER_uninterpreted_vechash(unsigned long vid);
 #define ZEROVEC(n) __CPROVER_uninterpreted_zerovec(n)
 #define UPD(v, p, x) __CPROVER_uninterpreted_upd((v), (p), d_bits(x))
 #define VECHASH(v) __CPROVER_uninterpreted_vechash(v)
+double __CPROVER_uninterpreted_elem(unsigned long vid, unsigned long pos);
+#define ELEM(v, p) __CPROVER_uninterpreted_elem((v), (p))
 typedef struct NumVec { unsigned long size, vid; _Bool pending; unsigned long ppos; double cell; } NumVec;
 typedef struct HashGen { char stateless; } HashGen;       /* boost::hash<T>: an empty function object */
 static inline HashGen HashGen_ctor0(void) { HashGen g; g.stateless = 0; return g; }
@@ -53,10 +55,15 @@ static inline unsigned long NumVec_value(NumVec *v) { return v->pending ? UPD(v-
 static inline double *NumVec_at(NumVec *v, unsigned long pos)
 {
   __CPROVER_assert(pos < v->size, "std::vector<MelemType>::operator[]: index inside the vector");
+  _Bool same = v->pending && v->ppos == pos;
   if (v->pending) { v->vid = UPD(v->vid, v->ppos, v->cell); }
+  /* a READ through the cell sees entry `pos` of the value: an uninterpreted function ELEM(value, pos) (nothing else is known about it),
+   * unless the cell already holds that entry (vocabulary for code that reads the numbers; the current code only stores) */
+  if (!same) v->cell = ELEM(v->vid, pos);
   v->pending = 1; v->ppos = pos;
   return &v->cell;
 }
+static inline unsigned long NumVec_size(NumVec *v) { return v->size; }
 /* boost::hash<std::vector<MelemType>>::operator()(v): a FUNCTION of the vector's value (hash_range over the entries) */
 static inline unsigned long HashGen_call(HashGen *g, NumVec *v) { (void)g; return VECHASH(NumVec_value(v)); }
 
